@@ -60,8 +60,13 @@ def run(ctx):
 
     def check_pair(g, c):
         comps = [x for x in (g, c) if x is not None]
-        p = str(common.ObjectPath(*comps))
-        back = common.ObjectPath.from_string(p)
+        try:
+            p = str(common.ObjectPath(*comps))
+            back = common.ObjectPath.from_string(p)
+        except Exception as ex:  # noqa
+            violations.append(Violation("ObjectPath(%r, %r) -> str -> from_string raised %s: %s" % (g, c, type(ex).__name__, ex),
+                                        dict(kind="roundtrip", group=g, channel=c, path=None)))
+            return
         if (back.group, back.channel) != (g, c):
             violations.append(Violation("ObjectPath(%r, %r) -> %r -> from_string gives (%r, %r)" % (g, c, p, back.group, back.channel),
                                         dict(kind="roundtrip", group=g, channel=c, path=p)))
@@ -124,10 +129,14 @@ def run(ctx):
             seen.add((g, c))
             objs.append((g, c))
         buf = io.BytesIO()
-        with TdmsWriter(buf) as w:
-            w.write_segment([ChannelObject(g, c, np.array([i, i + 1], dtype=np.int32), {"n": g + "|" + c}) for i, (g, c) in enumerate(objs)])
-        buf.seek(0)
-        f = TdmsFile.read(buf)
+        try:
+            with TdmsWriter(buf) as w:
+                w.write_segment([ChannelObject(g, c, np.array([i, i + 1], dtype=np.int32), {"n": g + "|" + c}) for i, (g, c) in enumerate(objs)])
+            buf.seek(0)
+            f = TdmsFile.read(buf)
+        except Exception as ex:  # noqa
+            violations.append(Violation("writing / reading channels named %r raised %s: %s" % (objs, type(ex).__name__, ex), dict(kind="e2e", objects=objs)))
+            continue
         counts["end_to_end"] += 1
         for i, (g, c) in enumerate(objs):
             try:
@@ -165,7 +174,11 @@ def replay(ctx, path):
         rp = json.load(f)["replay"]
     if rp.get("kind") == "roundtrip":
         comps = [x for x in (rp["group"], rp["channel"]) if x is not None]
-        b = common.ObjectPath.from_string(str(common.ObjectPath(*comps)))
+        try:
+            b = common.ObjectPath.from_string(str(common.ObjectPath(*comps)))
+        except Exception as ex:  # noqa
+            print("replay: raised %r" % ex)
+            return 1
         ok = (b.group, b.channel) == (rp["group"], rp["channel"])
         print("replay: %s" % ("property holds" if ok else "round trip fails: %r" % ((b.group, b.channel),)))
         return 0 if ok else 1
